@@ -403,8 +403,11 @@ theorem sense_err (tl : List TgtSpec) (iters : Int) (s : St) (e : Exc) (h : (sen
       (e = .value ∧ (tl.length = 1 ∨ tl.any (· == .notTarget) = true)) := by
   by_cases hnt : tl.any (· == .notTarget) = true
   · simp only [sense, hnt, if_true] at h
-    cases h; exact Or.inr (Or.inr (Or.inr ⟨rfl, Or.inr rfl⟩))
-  · have hnt' : tl.any (· == .notTarget) = false := by simpa using hnt
+    cases h; exact Or.inr (Or.inr (Or.inr ⟨rfl, Or.inr hnt⟩))
+  · have hnt' : tl.any (· == .notTarget) = false := by
+      cases hb : tl.any (· == .notTarget) with
+      | true => exact absurd hb hnt
+      | false => rfl
     obtain ⟨_, herr⟩ := sense_spec tl iters s hnt'
     rcases herr e h with h1 | h1 | ⟨h1, h2⟩
     · exact Or.inl h1
